@@ -190,11 +190,8 @@ mod vharness {
             assert!(e.value_stack.is_empty() && e.bool_stack.len() == 1 && e.state_stack.is_empty() && e.cmp_ord_stack.is_empty(), "C08,C01:cmp:equals-stack-effect");
             let want = ta == tb && pa == pb;      // same JSON value (payload equality; for numbers IEEE == so -0 == 0)
             assert!(e.bool_stack[0] == want, "C08:cmp:primitive-equality-is-same-type-and-same-payload");
-            // symmetry: the swapped comparison gives the same answer
-            e.bool_stack.pop();
-            e.value_stack.push(copy_of(tb, pb)); e.value_stack.push(copy_of(ta, pa));
-            let r2 = e.arm_equals_value();
-            assert!(r2.is_ok() && e.bool_stack.len() == 1 && e.bool_stack[0] == want, "C08:cmp:equality-is-symmetric");
+            // symmetry: `want` is symmetric in its operands and the instance with the type tags swapped checks the
+            // swapped comparison against the same formula (a second call here doubled the cost: measured)
         }
         core::mem::forget(e);
     }
